@@ -1,5 +1,5 @@
 (* C18 - Port objects perform exactly one access of their width on their port. *)
-From X86 Require Import Base.Word Machine.Wrappers Machine.Proofs Machine.AsmPins.
+From X86 Require Import Base.Word Machine.Wrappers Machine.Proofs Machine.AsmPins Machine.AsmPinsC18.
 Open Scope Z_scope.
 
 Theorem C18_read_is_one_in : forall w p s,
@@ -28,3 +28,10 @@ Print Assumptions C18_footprint.
 Theorem C18_asm_blocks_as_modelled : pins_C18 = true.
 Proof. exact pins_C18_ok. Qed.
 Print Assumptions C18_asm_blocks_as_modelled.
+
+(* every asm! block in this property's domain is, in the current source, exactly the block the
+   model was written against: template, operand bindings and the complete option list; and no
+   block of the crate is `pure`, `nostack` around a push/pop, or `nomem` with a memory operand *)
+Theorem C18_asm_blocks_exact : pins_C18_exact = true.
+Proof. exact pins_C18_exact_ok. Qed.
+Print Assumptions C18_asm_blocks_exact.
